@@ -31,8 +31,37 @@ pub struct TracedTexError {
     )]
     pub error: Box<dyn TexError>,
     pub stack_trace: Vec<StackTraceElement>,
+    #[cfg_attr(feature = "serde", serde(with = "token_traces_serde"))]
     pub token_traces: HashMap<token::Token, trace::SourceCodeTrace>,
     pub end_of_input_trace: Option<trace::SourceCodeTrace>,
+}
+
+/// The token traces are serialized as a list of pairs because some formats (e.g. JSON) only
+/// support maps whose keys are strings.
+#[cfg(feature = "serde")]
+mod token_traces_serde {
+    use super::*;
+    use serde::{Deserialize, Serialize};
+
+    pub fn serialize<S>(
+        value: &HashMap<token::Token, trace::SourceCodeTrace>,
+        serializer: S,
+    ) -> Result<S::Ok, S::Error>
+    where
+        S: serde::Serializer,
+    {
+        value.iter().collect::<Vec<_>>().serialize(serializer)
+    }
+
+    pub fn deserialize<'de, D>(
+        deserializer: D,
+    ) -> Result<HashMap<token::Token, trace::SourceCodeTrace>, D::Error>
+    where
+        D: serde::Deserializer<'de>,
+    {
+        let pairs = Vec::<(token::Token, trace::SourceCodeTrace)>::deserialize(deserializer)?;
+        Ok(pairs.into_iter().collect())
+    }
 }
 
 #[cfg(feature = "serde")]
